@@ -37,12 +37,12 @@ pub const DEF: CheckDef = CheckDef {
     id: "C18",
     run,
     technique: "bounded-exhaustive enumeration of consistent camt.053 statements rendered as XML by the generator; the real importer (library entry point and ImportCmd on real files) is compared with a reference import written from the statement, and funding + printed output is fed back through the real report::process (acceptance and exact final balance)",
-    rule: "case = one statement = (opening balance {0, 100.00, -50.25}, row_order {old_to_new, new_to_old}, sequence of entries). Entry alphabet E (1140) = side{CRDT,DBIT} x amount{0.05, 10.10, 1000} x dates{value=booking, booking=value+1, booking=value-1, value date absent, value date absent and booking date as DtTm with offset} x 38 detail/charge shapes (0/1/2/3 TxDtls whose signed amounts sum to the entry, incl. batches of 2 and 3 where one detail (first or last) has the OPPOSITE CdtDbtInd, with and without AmtDtls and with an included charge on the opposite detail; NtryDtls absent / Btch only; AmtDtls present/absent; charge: none, zero record, included at entry level, at detail level, at both, on the second detail only, not included; two and three non-zero charge records landing on one imported transaction without TxAmt: 2/3 records in one entry-level Chrgs, 2 in one detail-level Chrgs, entry-level + detail-level on a single detail and on the first detail of a batch, 2 entry-level records on a batch, 2 records with TxAmt, 2 not-included records; batches whose details differ in carrying AmtDtls: 2 details (TxAmt != Amt + charge, then charge without AmtDtls) in both orders, 3 details with the TxAmt detail first / middle / last). Families, each a complete product x 3 openings x 2 row orders: F0 no entry (6); F1 one entry over E (6 840); quick: F2 two entries over E2 = 108 (side x amount x {value=booking, booking=value+1} x 9 shapes incl. a mixed-indicator batch of 3 and an entry with two included charge records and no TxAmt) (69 984), F2d two entries over 20 = side x 10.10 x 5 dates x {k0,k2} (2 400), F3 three entries over 12 = side x amount x {k0, k2-det-incl} (10 368); thorough: F2 two entries over E (7 797 600), F3 three entries over 72 = side x amount x 2 dates x 6 shapes (2 239 488), F4 four entries over 12 (124 416). states = statements executed, transitions = ledger transactions compared with the reference (both observations), validated = MUST statements",
+    rule: "case = one statement + configuration = (opening balance {0, 100.00, -50.25}, row_order {old_to_new, new_to_old}, operator {present, absent}, sequence of entries). Entry alphabet E (1260) = side{CRDT,DBIT} x amount{0.05, 10.10, 1000} x dates{value=booking, booking=value+1, booking=value-1, value date absent, value date absent and booking date as DtTm with offset} x 42 detail/charge shapes (0/1/2/3 TxDtls whose signed amounts sum to the entry, incl. batches of 2 and 3 where one detail (first or last) has the OPPOSITE CdtDbtInd, with and without AmtDtls and with an included charge on the opposite detail; NtryDtls absent / Btch only; AmtDtls present/absent; charge: none, zero record, included at entry level, at detail level, at both, on the second detail only, not included; two and three non-zero charge records landing on one imported transaction without TxAmt: 2/3 records in one entry-level Chrgs, 2 in one detail-level Chrgs, entry-level + detail-level on a single detail and on the first detail of a batch, 2 entry-level records on a batch, 2 records with TxAmt, 2 not-included records; batches whose details differ in carrying AmtDtls: 2 details (TxAmt != Amt + charge, then charge without AmtDtls) in both orders, 3 details with the TxAmt detail first / middle / last; <Chrgs> without any non-zero charge: zero record at entry level (with 0 and 2 details), empty <Chrgs> with a 0.00 total at entry and detail level). Families, each a complete product x 3 openings x 2 row orders: F0 no entry (6); F1 one entry over E (7 560); F1n the same without operator (7 560: 3 060 MUST statements whose shapes carry no non-zero charge, the rest DON'T-CARE); F2n two entries without operator over 24 = side x amount x {k0, k1-zero-chg, k0-entry-empty-chrgs, k2-entry-zero-chg} (3 456); quick: F2 two entries over E2 = 108 (side x amount x {value=booking, booking=value+1} x 9 shapes incl. a mixed-indicator batch of 3 and an entry with two included charge records and no TxAmt) (69 984), F2d two entries over 20 = side x 10.10 x 5 dates x {k0,k2} (2 400), F3 three entries over 12 = side x amount x {k0, k2-det-incl} (10 368); thorough: F2 two entries over Ep = 1140 (E without the four zero/empty-Chrgs shapes) (7 797 600), F3 three entries over 72 = side x amount x 2 dates x 6 shapes (2 239 488), F4 four entries over 12 (124 416). states = statements executed, transitions = ledger transactions compared with the reference (both observations), validated = MUST statements",
     assumptions: &[
         "the generator's XML skeleton follows okane's own sample file (cli/tests/testdata/import/iso_camt.xml); elements okane does not model (GrpHdr, Acct, TxsSummry, RvslInd, Sts, Btch totals, RltdPties) are constant",
         "included charge: the entry/detail amount is the account movement; AmtDtls/TxAmt (when rendered) is the amount net of the included charges (debit: Amt - charges, credit: Amt + charges) as in the sample file; an entry-level charge on a two-detail batch is attributed to the first detail's TxAmt",
         "printed text is read back with okane's own parser; acceptance and balances come from report::process (the subject of C01-C04, trusted here)",
-        "DON'T-CARE: statements without entries (no transaction can carry the two assertions) and statements containing a charge that is NOT included (outside the quantifier): they are executed, shape clauses are judged where applicable, acceptance/final balance are only recorded",
+        "DON'T-CARE: statements without entries (no transaction can carry the two assertions) and statements containing a charge that is NOT included (outside the quantifier): they are executed, shape clauses are judged where applicable, acceptance/final balance are only recorded; a statement with a non-zero charge under a configuration without operator (okane needs the operator as payee of the commission): only recorded",
         "silent and therefore not judged directly: payee, counter-account, charge postings, date and amount of the opening-balance transaction, assertions on intermediate transactions",
     ],
     shards: 64,
@@ -82,6 +82,8 @@ enum Chg {
     None,
     /// a record with amount 0 (as in the sample file): must change nothing
     Zero,
+    /// a <Chrgs> element with a zero total and no record at all (Wise style): must change nothing
+    Empty,
     /// one included record of the level's amount (entry 0.02, detail 0.01)
     Incl,
     /// one included record of 0.01 whatever the level
@@ -98,7 +100,7 @@ impl Chg {
     /// the charge records of one <Chrgs> block: (amount in cents, ChrgInclInd)
     fn records(self, level_amount: i64) -> Vec<(i64, Option<bool>)> {
         match self {
-            Chg::None => vec![],
+            Chg::None | Chg::Empty => vec![],
             Chg::Zero => vec![(0, None)],
             Chg::Incl => vec![(level_amount, Some(true))],
             Chg::InclSmall => vec![(1, Some(true))],
@@ -149,7 +151,7 @@ const fn shh(name: &'static str, k: usize, opp: Option<usize>, t: usize) -> Shap
     Shape { name, k, opp, btch: true, entry_chg: Chg::None, det_chg: [Chg::Incl; 3], amt: [t == 0, t == 1, t == 2] }
 }
 
-const SHAPES: [Shape; 38] = [
+const SHAPES: [Shape; 42] = [
     sh("k0", 0, false, Chg::None, Chg::None, Chg::None, false),
     sh("k0-btch", 0, true, Chg::None, Chg::None, Chg::None, false),
     sh("k1", 1, true, Chg::None, Chg::None, Chg::None, false),
@@ -192,7 +194,15 @@ const SHAPES: [Shape; 38] = [
     shh("k3-TNN", 3, Some(2), 0),
     shh("k3-NTN", 3, Some(2), 1),
     shh("k3-NNT", 3, Some(2), 2),
+    // <Chrgs> elements that carry no non-zero charge (a configuration without `operator` must still import them)
+    sh("k0-entry-zero-chg", 0, false, Chg::Zero, Chg::None, Chg::None, false),
+    sh("k0-entry-empty-chrgs", 0, false, Chg::Empty, Chg::None, Chg::None, false),
+    sh("k1-det-empty-chrgs", 1, true, Chg::None, Chg::Empty, Chg::None, false),
+    sh("k2-entry-zero-chg", 2, true, Chg::Zero, Chg::None, Chg::None, false),
 ];
+
+/// the shapes up to here form the pair alphabet of the thorough tier (the later ones are in F1 only)
+const PAIR_SHAPES: usize = 38;
 
 impl Shape {
     fn chg(&self, j: usize) -> Chg {
@@ -201,6 +211,10 @@ impl Shape {
         } else {
             Chg::None
         }
+    }
+    /// some charge record with a non-zero amount (okane needs the `operator` of the configuration as its payee)
+    fn has_nonzero_charge(&self) -> bool {
+        self.entry_chg.nonzero_records() > 0 || (0..self.k).any(|j| self.chg(j).nonzero_records() > 0)
     }
     /// details differ in whether they carry AmtDtls
     fn heterogeneous(&self) -> bool {
@@ -288,6 +302,8 @@ impl EntrySpec {
 struct Stmt {
     opening: i64,
     new_to_old: bool,
+    /// the configuration names an `operator` (payee of charges)
+    operator: bool,
     entries: Vec<EntrySpec>,
 }
 
@@ -307,10 +323,11 @@ impl Stmt {
     }
     fn summary(&self) -> String {
         format!(
-            "opening {} closing {} row_order {} entries(chronological) [{}]",
+            "opening {} closing {} row_order {} operator {} entries(chronological) [{}]",
             cents(self.opening),
             cents(self.closing()),
             if self.new_to_old { "new_to_old" } else { "old_to_new" },
+            if self.operator { "present" } else { "absent" },
             self.entries.iter().map(|e| e.name()).collect::<Vec<_>>().join(", ")
         )
     }
@@ -343,12 +360,14 @@ fn ind(c: i64) -> &'static str {
 
 fn render_charges(out: &mut String, indent: &str, chg: Chg, level_amount: i64) {
     let recs = chg.records(level_amount);
-    if recs.is_empty() {
+    if chg == Chg::None {
         return;
     }
     out.push_str(&format!("{i}<Chrgs>\n", i = indent));
     let total: i64 = recs.iter().map(|r| r.0).sum();
-    if total != 0 {
+    if chg == Chg::Empty {
+        out.push_str(&format!("{i}  <TtlChrgsAndTaxAmt Ccy=\"{c}\">0.00</TtlChrgsAndTaxAmt>\n", i = indent, c = CCY));
+    } else if total != 0 {
         out.push_str(&format!("{i}  <TtlChrgsAndTaxAmt Ccy=\"{c}\">{a}</TtlChrgsAndTaxAmt>\n", i = indent, c = CCY, a = cents(total)));
     }
     for (amt, incl) in recs {
@@ -445,17 +464,22 @@ fn render_xml(stmt: &Stmt) -> String {
     o
 }
 
-const FILE_O2N: &str = "stmt_o2n.xml";
-const FILE_N2O: &str = "stmt_n2o.xml";
+/// statement file names; the configuration document is selected by the file name: [operator present?][new_to_old?]
+const FILES: [[&str; 2]; 2] = [["stmt_noop_o2n.xml", "stmt_noop_n2o.xml"], ["stmt_o2n.xml", "stmt_n2o.xml"]];
 
 fn config_yaml() -> String {
-    let one = |file: &str, order: &str| {
+    let one = |file: &str, order: &str, operator: bool| {
         format!(
-            "path: {}\nencoding: UTF-8\naccount: {}\naccount_type: asset\noperator: Okane Bank (fee)\ncommodity: {}\nformat:\n  commodity:\n    {}:\n      precision: 2\n  row_order: {}\nrewrite:\n  - matcher:\n      additional_entry_info: \"(?P<payee>.+)\"\n",
-            file, ACCOUNT, CCY, CCY, order
+            "path: {}\nencoding: UTF-8\naccount: {}\naccount_type: asset\n{}commodity: {}\nformat:\n  commodity:\n    {}:\n      precision: 2\n  row_order: {}\nrewrite:\n  - matcher:\n      additional_entry_info: \"(?P<payee>.+)\"\n",
+            file,
+            ACCOUNT,
+            if operator { "operator: Okane Bank (fee)\n" } else { "" },
+            CCY,
+            CCY,
+            order
         )
     };
-    format!("{}---\n{}", one(FILE_O2N, "old_to_new"), one(FILE_N2O, "new_to_old"))
+    format!("{}---\n{}---\n{}---\n{}", one(FILES[1][0], "old_to_new", true), one(FILES[1][1], "new_to_old", true), one(FILES[0][0], "old_to_new", false), one(FILES[0][1], "new_to_old", false))
 }
 
 // ------------------------------------------------------------------------------------------
@@ -532,30 +556,34 @@ fn observe(t: &plain::Transaction<'_>) -> ObsTxn {
 
 struct Scratch {
     config_path: PathBuf,
-    o2n: PathBuf,
-    n2o: PathBuf,
-    cfg_o2n: okane::import::config::ConfigEntry,
-    cfg_n2o: okane::import::config::ConfigEntry,
+    /// [operator present?][new_to_old?]
+    files: [[PathBuf; 2]; 2],
+    cfgs: [[okane::import::config::ConfigEntry; 2]; 2],
 }
 
 fn scratch() -> Scratch {
+    use okane::import::config::RowOrder;
     let dir = oka::scratch_dir("c18");
     let config_path = dir.join("config.yml");
     std::fs::write(&config_path, config_yaml()).expect("harness bug: cannot write config");
     let set = okane::import::config::load_from_yaml(config_yaml().as_bytes()).expect("harness bug: config does not load");
-    let o2n = dir.join(FILE_O2N);
-    let n2o = dir.join(FILE_N2O);
-    let cfg_o2n = set.select(&o2n).expect("harness bug: select").expect("harness bug: no config entry");
-    let cfg_n2o = set.select(&n2o).expect("harness bug: select").expect("harness bug: no config entry");
-    if cfg_o2n.format.row_order != okane::import::config::RowOrder::OldToNew || cfg_n2o.format.row_order != okane::import::config::RowOrder::NewToOld {
-        panic!("harness bug: row_order not taken from the config");
+    let files = [[dir.join(FILES[0][0]), dir.join(FILES[0][1])], [dir.join(FILES[1][0]), dir.join(FILES[1][1])]];
+    let sel = |p: &PathBuf| set.select(p).expect("harness bug: select").expect("harness bug: no config entry");
+    let cfgs = [[sel(&files[0][0]), sel(&files[0][1])], [sel(&files[1][0]), sel(&files[1][1])]];
+    for op in 0..2 {
+        for ord in 0..2 {
+            let c = &cfgs[op][ord];
+            if c.format.row_order != [RowOrder::OldToNew, RowOrder::NewToOld][ord] || c.operator.is_some() != (op == 1) || c.path != FILES[op][ord] {
+                panic!("harness bug: configuration document not selected by the file name");
+            }
+        }
     }
-    Scratch { config_path, o2n, n2o, cfg_o2n, cfg_n2o }
+    Scratch { config_path, files, cfgs }
 }
 
 /// (a) library entry point
 fn run_lib(sc: &Scratch, stmt: &Stmt, xml: &str) -> Result<Vec<ObsTxn>, String> {
-    let cfg = if stmt.new_to_old { &sc.cfg_n2o } else { &sc.cfg_o2n };
+    let cfg = &sc.cfgs[stmt.operator as usize][stmt.new_to_old as usize];
     let txns = okane::import::import(xml.as_bytes(), okane::import::Format::IsoCamt053, cfg).map_err(|e| format!("import(): {}", e))?;
     let mut out = vec![];
     for t in &txns {
@@ -575,7 +603,7 @@ fn write_in_place(path: &std::path::Path, data: &[u8]) {
 
 /// (b) the command, on real files
 fn run_cmd(sc: &Scratch, stmt: &Stmt, xml: &str) -> Result<String, String> {
-    let source = if stmt.new_to_old { &sc.n2o } else { &sc.o2n };
+    let source = &sc.files[stmt.operator as usize][stmt.new_to_old as usize];
     write_in_place(source, xml.as_bytes());
     let mut out: Vec<u8> = vec![];
     okane::cmd::ImportCmd { config: sc.config_path.clone(), source: source.clone() }.run(&mut out).map_err(|e| format!("ImportCmd::run: {}", e))?;
@@ -706,6 +734,14 @@ fn judge(sc: &Scratch, stmt: &Stmt, xml: &str, txns_compared: &mut u64) -> Outco
             _ => Outcome::violation("library-and-command-disagree/no-entries", format!("import(): {:?}\nImportCmd: {:?}", lib.as_ref().map(|v| show_obs(v)), cmd)),
         };
     }
+    if !stmt.operator && stmt.entries.iter().any(|e| e.shape().has_nonzero_charge()) {
+        // okane legitimately needs the operator as the payee of the commission posting: only record what happens
+        return match (&lib, &cmd) {
+            (Err(_), Err(_)) => Outcome::dont_care("dc/no-operator-with-charge/import-fails"),
+            (Ok(_), Ok(_)) => Outcome::dont_care("dc/no-operator-with-charge/imported"),
+            _ => Outcome::violation("library-and-command-disagree/no-operator-with-charge", format!("import(): {:?}\nImportCmd: {:?}", lib.as_ref().map(|v| show_obs(v)), cmd)),
+        };
+    }
     let lib = match lib {
         Ok(v) => v,
         Err(e) => return Outcome::violation(format!("import-fails/{}", e.split(':').next().unwrap_or("")), format!("the importer rejected a consistent statement: {}", e)),
@@ -776,7 +812,7 @@ fn judge(sc: &Scratch, stmt: &Stmt, xml: &str, txns_compared: &mut u64) -> Outco
     let chg = stmt.entries.iter().any(|e| e.shape().has_included());
     let eff = exp.iter().any(|e| e.eff.is_some());
     let noval = stmt.entries.iter().any(|e| matches!(e.dates, Dates::ValueAbsent | Dates::BookDtTmOnly));
-    Outcome::pass(format!("n{}/{}{}{}{}", n, if mixed { "M" } else if batch { "B" } else { "-" }, if chg { "C" } else { "-" }, if eff { "E" } else { "-" }, if noval { "V" } else { "-" }))
+    Outcome::pass(format!("n{}{}/{}{}{}{}", n, if stmt.operator { "" } else { "-noop" }, if mixed { "M" } else if batch { "B" } else { "-" }, if chg { "C" } else { "-" }, if eff { "E" } else { "-" }, if noval { "V" } else { "-" }))
 }
 
 // ------------------------------------------------------------------------------------------
@@ -804,6 +840,7 @@ fn shape_idx(name: &str) -> usize {
 struct Family {
     name: &'static str,
     n: usize,
+    operator: bool,
     alpha: Vec<EntrySpec>,
 }
 
@@ -813,26 +850,32 @@ fn families(thorough: bool) -> Vec<Family> {
     let all_dates = [Dates::Same, Dates::BookLater, Dates::BookEarlier, Dates::ValueAbsent, Dates::BookDtTmOnly];
     let all_shapes: Vec<usize> = (0..SHAPES.len()).collect();
     let idx = |names: &[&str]| -> Vec<usize> { names.iter().map(|n| shape_idx(n)).collect() };
-    // E: 2 x 3 x 5 x 38 = 1140
+    // E: 2 x 3 x 5 x 42 = 1260
     let full = alphabet(&both, &all_amts, &all_dates, &all_shapes);
+    // Ep: 2 x 3 x 5 x 38 = 1140 (E without the four zero/empty-<Chrgs> shapes)
+    let pairs = alphabet(&both, &all_amts, &all_dates, &all_shapes[..PAIR_SHAPES]);
     // E2: 2 x 3 x 2 x 9 = 108
     let e2 = alphabet(&both, &all_amts, &[Dates::Same, Dates::BookLater], &idx(&["k0", "k1", "k2", "k1-entry-incl", "k2-det-incl", "k0-entry-incl2", "k2-entry-incl", "k1-det-notincl", "k3-mixed"]));
     // Ed: 2 x 1 x 5 x 2 = 20 (all date combinations of two entries)
     let ed = alphabet(&both, &[1], &all_dates, &idx(&["k0", "k2"]));
     // E3: 2 x 3 x 1 x 2 = 12
     let e3 = alphabet(&both, &all_amts, &[Dates::Same], &idx(&["k0", "k2-det-incl"]));
-    let mut f = vec![Family { name: "F0", n: 0, alpha: vec![] }, Family { name: "F1", n: 1, alpha: full.clone() }];
+    // En: 2 x 3 x 1 x 4 = 24 (no non-zero charge; pairs without operator)
+    let en = alphabet(&both, &all_amts, &[Dates::Same], &idx(&["k0", "k1-zero-chg", "k0-entry-empty-chrgs", "k2-entry-zero-chg"]));
+    let fam = |name, n, operator, alpha| Family { name, n, operator, alpha };
+    let mut f = vec![fam("F0", 0, true, vec![]), fam("F1", 1, true, full.clone()), fam("F1n", 1, false, full)];
     if !thorough {
-        f.push(Family { name: "F2", n: 2, alpha: e2 });
-        f.push(Family { name: "F2d", n: 2, alpha: ed });
-        f.push(Family { name: "F3", n: 3, alpha: e3 });
+        f.push(fam("F2", 2, true, e2));
+        f.push(fam("F2d", 2, true, ed));
+        f.push(fam("F3", 3, true, e3));
     } else {
-        f.push(Family { name: "F2", n: 2, alpha: full });
+        f.push(fam("F2", 2, true, pairs));
         // E3t: 2 x 3 x 2 x 6 = 72
         let e3t = alphabet(&both, &all_amts, &[Dates::Same, Dates::BookLater], &idx(&["k0", "k2", "k1-entry-incl", "k2-det-incl", "k0-entry-incl", "k2-entry-incl"]));
-        f.push(Family { name: "F3", n: 3, alpha: e3t });
-        f.push(Family { name: "F4", n: 4, alpha: e3 });
+        f.push(fam("F3", 3, true, e3t));
+        f.push(fam("F4", 4, true, e3));
     }
+    f.push(fam("F2n", 2, false, en));
     f
 }
 
@@ -864,14 +907,15 @@ fn run(ctx: &mut Ctx) {
             let new_to_old = r % 2 == 1;
             r /= 2;
             let opening = OPENINGS[(r % 3) as usize];
-            let stmt = Stmt { opening, new_to_old, entries };
+            let stmt = Stmt { opening, new_to_old, operator: fam.operator, entries };
             let xml = render_xml(&stmt);
             let mut compared = 0u64;
-            ctx.case(|| format!("{}\n--- config ---\n{}--- statement ({}) ---\n{}", stmt.summary(), config_yaml(), if stmt.new_to_old { FILE_N2O } else { FILE_O2N }, xml), || judge(&sc, &stmt, &xml, &mut compared));
+            ctx.case(|| format!("{}\n--- config ---\n{}--- statement ({}) ---\n{}", stmt.summary(), config_yaml(), FILES[stmt.operator as usize][stmt.new_to_old as usize], xml), || judge(&sc, &stmt, &xml, &mut compared));
             ctx.count("transitions", compared);
             ctx.count("states", 1);
             ctx.count("entries", stmt.entries.len() as u64);
             ctx.count("statements_new_to_old", stmt.new_to_old as u64);
+            ctx.count("statements_without_operator", !stmt.operator as u64);
             ctx.count("batches_with_and_without_amtdtls", stmt.entries.iter().filter(|e| e.shape().heterogeneous()).count() as u64);
             ctx.count("entries_with_several_charge_records_on_one_transaction", stmt.entries.iter().filter(|e| e.shape().records_on_one_txn() >= 2).count() as u64);
             ctx.count("details_with_opposite_indicator", stmt.entries.iter().filter(|e| e.shape().opp.is_some()).count() as u64);
